@@ -36,7 +36,7 @@ func init() {
 			pprof.StartCPUProfile(f)
 			t0 := time.Now()
 			for i := 0; i < n; i++ {
-				execMirror(dbgT, job)
+				registry.Execs[ex](dbgT, job)
 			}
 			pprof.StopCPUProfile()
 			f.Close()
